@@ -118,8 +118,9 @@ example : (exec (demo .onPubrel)).conns.length = 5 ∧
     (exec (demo .onPubrel)).dials = 5 ∧ (exec (demo .onPubrel)).waits = [0, 0, 0, 0] := by
   decide +kernel
 
-/-! The theorems above quantify over all event lists, so `.waitElapsed`, `.cancelCtx` and Disconnect
-    in any phase of the reconnect loop are covered without a hypothesis. The scripts below exercise
+/-! The theorems above quantify over all event lists and configurations, so `.waitElapsed`,
+    `.cancelCtx` and Disconnect in any phase of the reconnect loop, and a dialer that ignores its
+    context (`cfg.deafDialer`), are covered without a hypothesis. The scripts below exercise
     them (both receiver methods). -/
 
 /-- Disconnect while the loop backs off after PUBREC was lost: the loop exits, nothing is redialled;
@@ -193,6 +194,38 @@ example : (exec (cancelGate .onPubrel)).phase = .exited ∧
 
 example : ∀ meth, (cancelGate meth).DistinctMsgs ∧ SessionsKept (cancelGate meth) ∧
     (cancelBackoff meth).DistinctMsgs ∧ SessionsKept (cancelBackoff meth) := by
+  intro meth
+  cases meth <;> exact ⟨by unfold Script.DistinctMsgs; decide, by unfold SessionsKept; decide,
+    by unfold Script.DistinctMsgs; decide, by unfold SessionsKept; decide⟩
+
+/-- a dialer that ignores its context (`cfg.deafDialer`), the Connect context cancelled during the
+    first dial: the transport that arrives afterwards (`deafOk`) gets CONNECT and is closed at once,
+    the QoS 2 request accepted before is attempted on the closed transport only; if the dial fails
+    (`deafFail`) the loop exits without a connection. Either way the broker sees nothing, and the
+    theorems above (no hypothesis on `cfg`) cover these runs -/
+def deafOk (meth : Method) : Script :=
+  { method := meth, cfg := { deafDialer := true },
+    evs := [.start, .app (.pub 1 2), .cancelCtx, .dialOk 10, .waitElapsed, .dialOk 20,
+            .connackOk true []] }
+
+def deafFail (meth : Method) : Script :=
+  { method := meth, cfg := { deafDialer := true },
+    evs := [.start, .app (.pub 1 2), .cancelCtx, .dialFail, .waitElapsed, .dialOk 20,
+            .connackOk true []] }
+
+example : (exec { deafOk .onPubrel with evs := (deafOk .onPubrel).evs.take 3 }).phase = .dialGate ∧
+    (exec (deafOk .onPubrel)).phase = .exited ∧ (exec (deafOk .onPubrel)).connectErr = true ∧
+    allPkts (exec (deafOk .onPubrel)) = [(.connect, .sent .ok), (.publish 1 2 11 false, .dead)] ∧
+    (exec (deafOk .onPubrel)).conns.map (·.alive) = [false] ∧
+    deliveries (exec (deafOk .onPublish)) 1 = 0 ∧ (exec (deafOk .onPubrel)).broker.stash = [] ∧
+    (exec (deafOk .onPubrel)).broker.q2 = [] ∧ (exec (deafOk .onPubrel)).broker.acked = [] ∧
+    (exec (deafFail .onPubrel)).phase = .exited ∧ (exec (deafFail .onPubrel)).connectErr = true ∧
+    (exec (deafFail .onPubrel)).conns.length = 0 ∧ (exec (deafFail .onPubrel)).waits = [] ∧
+    msgPkts (exec (deafFail .onPubrel)) 1 = [] ∧
+    deliveries (exec (deafFail .onPublish)) 1 = 0 := by decide
+
+example : ∀ meth, (deafOk meth).DistinctMsgs ∧ SessionsKept (deafOk meth) ∧
+    (deafFail meth).DistinctMsgs ∧ SessionsKept (deafFail meth) := by
   intro meth
   cases meth <;> exact ⟨by unfold Script.DistinctMsgs; decide, by unfold SessionsKept; decide,
     by unfold Script.DistinctMsgs; decide, by unfold SessionsKept; decide⟩
